@@ -381,13 +381,9 @@ __bizda_get_wday(dt_bizda_t that)
 static unsigned int
 __bizda_get_count(dt_bizda_t that)
 {
-/* get N where N is the N-th occurrence of wday in the month of that year */
-	unsigned int bd = __get_bdays(that.y, that.m);
-
-	if (UNLIKELY(that.bd + DUWW_BDAYS_P_WEEK > bd)) {
-		return DUWW_BDAYS_P_WEEK;
-	}
-	return (that.bd - 1U) / DUWW_BDAYS_P_WEEK + 1U;
+/* get N where N is the N-th occurrence of wday in the month of that year,
+ * that is a matter of the day of the month, not of the business day */
+	return (__bizda_get_mday(that) - 1U) / GREG_DAYS_P_WEEK + 1U;
 }
 
 static unsigned int
